@@ -112,9 +112,12 @@ func worldC04(w *World) {
 	}
 	failFetch := map[string]int{}
 	failUpload := map[string]bool{}
+	resetUpload := map[string]bool{}
 	if faulty {
 		for _, id := range ids {
-			switch t.Pick("fault", 6, 1, 1, 1) {
+			switch t.Pick("fault", 6, 1, 1, 1, 2) {
+			case 4:
+				resetUpload[id] = true // every upload attempt is cut by a connection reset
 			case 1:
 				failFetch[id] = 1 // one 5xx, agent retries
 			case 2:
@@ -136,6 +139,11 @@ func worldC04(w *World) {
 			}
 			return 200, jsonList(script[n])
 		}
+		if n == len(script) && faulty {
+			// uncompleted requests are listed again after their uploads have failed
+			time.Sleep(10 * time.Second)
+			return 200, jsonList(ids)
+		}
 		return 0, nil // long poll that never answers
 	}
 	fetchFails := map[string]int{}
@@ -155,6 +163,15 @@ func worldC04(w *World) {
 		return false
 	}
 	fp.OnUpload = func(id string, attempt int, rw http.ResponseWriter, r *http.Request) bool {
+		if resetUpload[id] {
+			w.K.Count("fault.upload_reset")
+			if hj, ok := rw.(http.Hijacker); ok {
+				if c, _, err := hj.Hijack(); err == nil {
+					c.(*sim.Conn).Abort()
+				}
+			}
+			return true
+		}
 		if failUpload[id] {
 			w.K.Count("fault.upload_5xx")
 			io.Copy(io.Discard, r.Body)
@@ -176,7 +193,7 @@ func worldC04(w *World) {
 			fp.mu.Lock()
 			n := len(fp.ListCalls)
 			fp.mu.Unlock()
-			if n > len(script) {
+			if n > len(script)+1 || (!faulty && n > len(script)) {
 				break
 			}
 		}
@@ -212,13 +229,13 @@ func worldC04(w *World) {
 					cleanUpload = false
 				}
 			}
-			if failUpload[id] {
+			if failUpload[id] || resetUpload[id] {
 				cleanUpload = false
 			}
 			if cleanFetch && cleanUpload && n != 1 {
 				w.Violation("exactly-once", "request %s was served without error by the proxy but forwarded %d times", id, n)
 			}
-			if failFetch[id] == 1 && fr.Served >= 1 && n != 1 && !failUpload[id] {
+			if failFetch[id] == 1 && fr.Served >= 1 && n != 1 && !failUpload[id] && !resetUpload[id] {
 				w.Violation("exactly-once", "request %s (one injected 5xx on fetch, then served) was forwarded %d times", id, n)
 			}
 		}
